@@ -67,8 +67,12 @@ Definition same_obs_mode (mode : nat) (a b : obs) : bool :=
   | _, _, _ => same_obs a b
   end.
 
-Definition with_flag (i : nat) (q : cquirks) : cquirks := Build_cquirks false.
-Definition candidates (q : cquirks) : list cquirks := q :: map (fun i => with_flag i q) [0] ++ [ideal].
+Definition with_flag (i : nat) (q : cquirks) : cquirks :=
+  match i with
+  | 0 => Build_cquirks false (q_finalize_unguarded q)
+  | _ => Build_cquirks (q_value_error_escapes q) false
+  end.
+Definition candidates (q : cquirks) : list cquirks := q :: map (fun i => with_flag i q) [0; 1] ++ [ideal].
 
 (* mode 0 = Orchestrator.lint_files ; 1 = worker path of lint_files_parallel *)
 Definition run_mode (mode : nat) (q : cquirks) (rules : list rule) (files : list string) :=
@@ -79,11 +83,8 @@ Definition run_mode (mode : nat) (q : cquirks) (rules : list rule) (files : list
 Definition spec_mode (mode : nat) (rules : list rule) (files : list string) : obs :=
   (None, flat_viols (spec_cells rules files) (spec_fins rules files), []).
 
-(* the property's domain: finalize() does not raise on what the run has stored (no file content is known to
-   make it raise; when it does the run aborts - theorem finalize_failure_crashes) *)
-Definition is_ok {A} (o : outcome A) : bool := match o with Ok _ => true | Fail _ => false end.
-Definition in_domain (mode : nat) (rules : list rule) (files : list string) : bool :=
-  forallb (fun r => is_ok (r_final r (match mode with 0 => store_of r files | _ => par_store r files end))) rules.
+(* every scenario is in the property's domain: a failing finalize() is a modelled case (flag q_finalize_unguarded) *)
+Definition in_domain (mode : nat) (rules : list rule) (files : list string) : bool := true.
 
 (* [in domain ; impl = spec ; model ideal = spec ; impl = model c for each candidate c] *)
 Definition judge_run (q : cquirks) (mode : nat) (stubs : list stub) (files : list string) (impl : obs) : list bool :=
